@@ -565,7 +565,12 @@ func (runInfo *runInfoStruct) runForMapStmt(stmt *ast.ForStmt, value reflect.Val
 		runInfo.env.DefineValue(stmt.Vars[0], keys[i])
 
 		if len(stmt.Vars) > 1 {
-			runInfo.env.DefineValue(stmt.Vars[1], value.MapIndex(keys[i]))
+			v := value.MapIndex(keys[i])
+			if !v.IsValid() {
+				// the entry was removed during the iteration: as in Go, it is not produced
+				continue
+			}
+			runInfo.env.DefineValue(stmt.Vars[1], v)
 		}
 
 		runInfo.stmt = stmt.Stmt
